@@ -7,7 +7,7 @@ from ..core import AnalysisError, norm, walk_no_nested, flat
 
 META = {
     'design_ref': 'DESIGN.md §5 C17',
-    'technique': "abstract interpretation on symbolic strings with automatic case refinement: decode(encode(lines)) on lists of symbolic lines of the property's domain, License converters, the two list converters on symbolic items (accepted items must read back, refused ones raise the format error); regular-language inclusion between the writer-side validator and str.split(); property accessors and document construction/dump/insertion interpreted on stubs; line-primitive rule for the multiline codec",
+    'technique': "abstract interpretation on symbolic strings with automatic case refinement: decode(encode(lines)) on lists of symbolic lines of the property's domain, License converters, the two list converters on symbolic items (accepted items must read back, refused ones raise the format error); regular-language inclusion between the writer-side validator and str.split(); property accessors and document construction/dump/insertion interpreted on stubs; line-primitive rule for the multiline codec; who-may-call rule for the raw store of the wrapped paragraphs; validating constructors interpreted on paragraphs the creators can write",
     'level_text': 'Static decision: for every line of the stated domain the decoder applied to the encoder\'s output returns the line '
                   '(first line and continuation lines separately), the decoder rejects a continuation without the prefix with the format '
                   'error; a value accepted by the space-separated writer is never split by the reader; every restricted field uses the '
@@ -516,7 +516,9 @@ def check(src, rep, tier):
                        'result must be the input on the property\'s domain (lines without boundaries; continuation lines empty or non-blank and '
                        'not a lone "."); the decoder must reject a missing prefix.  (R2) RestrictedField pairs; the language accepted by the '
                        'space-separated writer (complement of _has_space under its flags) contains no str.split() separator.  (R3) wrapper '
-                       'getter/setter wiring.  (R4) classification, dump and insertion order.')
+                       'getter/setter wiring.  (R4) classification, dump and insertion order.  (R5) line primitive.  (R6) the wrapped paragraphs '
+                       'validate on every way in (raw store only in Deb822.__setitem__).  (R7) the validating constructors interpreted on '
+                       'paragraphs with present-but-empty and with absent fields.')
     rep.not_decided = ['the single-empty-line and trailing-newline corner cases of the text codec', 'Deb822 dump/parse of the paragraphs themselves (C02)']
     rep.need('C17.R1', 3)
     rep.need('C17.R2', 9)
